@@ -450,14 +450,25 @@ func checkC18(tier string) *Report {
 		route string
 	}
 	var probes []probe
+	// the length that counts is the number of BYTES of the payload (a bytes field): every length with contents whose byte,
+	// character and UTF-16 lengths differ (seed C18g measured characters), with NUL bytes and with text
+	fill := func(unit string, n int) []byte {
+		out := bytes.Repeat([]byte(unit), n/len(unit))
+		return append(out, bytes.Repeat([]byte{'a'}, n-len(out))...)
+	}
 	for _, n := range lens {
-		pay := bytes.Repeat([]byte{0xab}, n)
-		for _, f := range []Fwd{w0.FwdCCTP(0), w0.FwdHyp(1), w0.FwdInternal(w0.Bob)} {
-			f.Passthrough = pay
-			if n == 0 {
-				f.Passthrough = nil
+		for ci, unit := range []string{"\xab", "a", "é", "😀", "\x00"} {
+			if n == 0 && ci > 0 {
+				continue
 			}
-			probes = append(probes, probe{fmt.Sprintf("%s passthrough=%dB", f, n), n, NewPkt("channel-0", denomUSDC, "1000", w0.Orb.String(), MemoJSON(f)), f.Kind})
+			pay := fill(unit, n)
+			for _, f := range []Fwd{w0.FwdCCTP(0), w0.FwdHyp(1), w0.FwdInternal(w0.Bob)} {
+				f.Passthrough = pay
+				if n == 0 {
+					f.Passthrough = nil
+				}
+				probes = append(probes, probe{fmt.Sprintf("%s passthrough=%dB of %q", f, n, unit), n, NewPkt("channel-0", denomUSDC, "1000", w0.Orb.String(), MemoJSON(f)), f.Kind})
+			}
 		}
 	}
 	x := &Explorer{Rep: rep, Prefix: alpha, Depth: -1, Revisit: true, RecordGraph: true}
